@@ -6,11 +6,13 @@ of every entered scope has a completed run, and - plugin outcomes being a functi
 is the uninterrupted run's).  Known, unfixed defects of the repair are excused clause by clause through the deviation
 flags listed as `known` in known_findings.json (KNOWN-FINDING lines); anything else is a VIOLATION.
 Theorems: coq/resume/props/C10.v (release side: terminal, nothing Running without flags; refutations per flag) and
-coq/c10x/props/C10.v (clause (i) of the full statement, for EVERY crash image of EVERY accepted engine trace and every
-deviation flag set: the released sequences and actions obey C04's clauses 7 and 8, the released plan obeys clause 6 -
-an invariant of the resumed automaton about the IN-MEMORY image, on top of coq/c04's product invariant for the crash
-images and coq/recover's transcription of fixAction / fixSeq).  The deferred-group clause, the block rule, progress and
-verdict equality stay monitored.  Harness: harness/cmd/recover.  See props/recover_common.py.
+coq/c10x/props/C10.v (for EVERY crash image of EVERY accepted engine trace and every deviation flag set: clause (i) -
+the released sequences and actions obey C04's clauses 7 and 8, the released plan obeys clause 6 - as an invariant of
+the resumed automaton about the IN-MEMORY image, on top of coq/c04's product invariant for the crash images and
+coq/recover's transcription of fixAction / fixSeq; clause (ii) for the plan scope when the repair does not
+short-circuit to End; clause (ii) refuted without flags on a real recovery and on a model witness).  The deferred-group
+clause for block scopes, the block rule, progress, verdict equality and everything after a second crash stay monitored.
+Harness: harness/cmd/recover.  See props/recover_common.py.
 """
 from vf import framework as fw
 from props import recover_common as rc
